@@ -147,6 +147,9 @@ def run(ctx):
     else:
         ctx.check("arbitrary_precision" not in feats, "C01.features", "C01.features:arbitrary_precision", "Cargo.lock",
                   bad_msg=f"serde_json features: {sorted(feats)}")
+    if ctx.tier == "thorough":
+        from .. import witness
+        witness.check(ctx, "C01.witness", {"C01NoFloat": "CanonicalJsonValue has a Float variant: a non-integer number can enter canonical JSON"})
     ctx.assumptions += ["serde_json's compact serializer: minimal escapes, no whitespace, shortest integer form (dependency, trusted)",
                         "String's Ord is byte order, which for UTF-8 equals code-point order"]
     ctx.samples += [{"input": "1.5 / 1e3 / -0 / 2^53", "expected": "IntConvert via as_i64=None or Int::try_from=Err"}]
